@@ -15,6 +15,9 @@
  *                                                                                 -> ok n tell len eof | fail tell len eof
  *   hlwrite tag ref blen nblk pos n  HLcreate, Hseek(pos), Hwrite(n), Htell, Hinquire  -> ok n tell len | fail tell len
  *   fillrefs tag lo hi             Hputelement(1 byte) for refs lo..hi            -> ok count
+ *   seekat tag ref app origin offset pos0   Hstartaccess(RDWR[|APPENDABLE]) Hseek(pos0,START) Hseek(offset,origin) Htell -> ok tell | fail tell
+ *   chunkfill tag ref k            HMCcreate (2 chunks of 4 bytes); refs 1..k of DFTAG_CHUNK taken; Hwrite both, Hendaccess -> ok stored(1|0)
+ *   fn_vshdrlen idx                Hlength of the DFTAG_VH header of the idx-th created Vdata (after its detach) -> ok len
  *   newref                         Hnewref                                        -> ok ref | fail
  *   tagnewref tag                  Htagnewref                                     -> ok ref | fail
  * V level (vgroup slots 0..7, vdata slots 0..7; objects are remembered by creation index):
@@ -63,6 +66,7 @@
 #include "hfile_priv.h"
 #include "vg_priv.h"
 #include "mfhdf.h"
+#include "hchunks_priv.h"
 
 #define NV 8
 #define NSD 200
@@ -209,6 +213,40 @@ static void run_history(char **lines, long *lnos, long n)
             free(b);
             if (w != FAIL) printf("ok %d %d %d\n", w, tell, len);
             else printf("fail %d %d\n", tell, len);
+        }
+        else if (!strcmp(op, "seekat")) {
+            /* seekat tag ref app origin offset pos0 */
+            sscanf(L, "%*s %ld %ld %ld %ld %ld %ld", &a[0], &a[1], &a[2], &a[3], &a[4], &a[5]);
+            int32 aid = Hstartaccess(fid, (uint16)a[0], (uint16)a[1], DFACC_RDWR | (a[2] ? DFACC_APPENDABLE : 0));
+            if (aid == FAIL) { printf("fail noaccess\n"); continue; }
+            if (a[5] != 0 && Hseek(aid, (int32)a[5], DF_START) == FAIL) { printf("fail setup\n"); Hendaccess(aid); continue; }
+            int r = Hseek(aid, (int32)a[4], (int)a[3]);
+            int32 tell = Htell(aid);
+            Hendaccess(aid);
+            printf("%s %d\n", r != FAIL ? "ok" : "fail", tell);
+        }
+        else if (!strcmp(op, "chunkfill")) {
+            /* chunkfill tag ref k: chunked element of two 4-byte chunks; refs 1..k of DFTAG_CHUNK taken; write both */
+            sscanf(L, "%*s %ld %ld %ld", &a[0], &a[1], &a[2]);
+            HCHUNK_DEF cd; DIM_DEF dd; uint8 fill = 0;
+            memset(&cd, 0, sizeof cd); memset(&dd, 0, sizeof dd);
+            dd.dim_length = 8; dd.chunk_length = 4; dd.distrib_type = 1;
+            cd.chunk_size = 4; cd.nt_size = 1; cd.num_dims = 1; cd.pdims = &dd; cd.chunk_flag = 0;
+            int32 aid = HMCcreate(fid, (uint16)a[0], (uint16)a[1], 1, 1, &fill, &cd);
+            if (aid == FAIL) { printf("fail nocreate\n"); continue; }
+            for (long r = 1; r <= a[2]; r++) Hputelement(fid, DFTAG_CHUNK, (uint16)r, (const uint8 *)"x", 1);
+            int32 w1 = Hwrite(aid, 4, "abcd");
+            if (w1 == FAIL) Hseek(aid, 4, DF_START);
+            int32 w2 = Hwrite(aid, 4, "efgh");
+            int   e  = Hendaccess(aid);
+            /* chunks go through a write-back cache: a chunk without a ref is reported by the write that evicts it
+               or by Hendaccess; the observable is whether everything was stored */
+            printf("ok %d\n", (w1 == 4 && w2 == 4 && e != FAIL) ? 1 : 0);
+        }
+        else if (!strcmp(op, "fn_vshdrlen")) {
+            sscanf(L, "%*s %ld", &a[0]);
+            int32 len = (a[0] < nvs) ? Hlength(fid, DFTAG_VH, (uint16)vsrefs[a[0]]) : FAIL;
+            if (len != FAIL) printf("ok %d\n", len); else printf("fail\n");
         }
         else if (!strcmp(op, "fillrefs")) {
             sscanf(L, "%*s %ld %ld %ld", &a[0], &a[1], &a[2]);
